@@ -318,14 +318,80 @@ def r3_state(chk):
             # a pure iteration cursor is not state worth keeping, but it costs nothing to keep; we only require data attributes
             key = f"{ci.module.relpath}:{ci.name}:state-includes:{a}"
             transient = a in ("_current_mol_index",)
-            if ci.name == "Conformer" or ci.name == "Substructure":
-                chk.note(f"{ci.name}.{a} lives in __dict__ of a view class; pickling views is outside what is decided here (F6e, recorded)")
+            if prog.lookup(ci, "__reduce__") is not None:
+                chk.note(f"{ci.name}.{a} lives in __dict__ of a class that replaces the state protocol by __reduce__ (decided under state-restorable)")
                 continue
+            if ci.name == "Substructure":
+                chk.note(f"{ci.name}.{a} lives in __dict__ of a view class; it travels with the inherited state (slots + __dict__)")
             chk.decide(includes_dict or overrides or transient, "C06.R3", key, f"{ci.module.relpath}:{node.lineno}",
                        f"{ci.name}.{a} is part of the pickled state" + (" (transient cursor)" if transient else ""),
                        f"{ci.name} stores `self.{a}` in __dict__ (the class has no __slots__) but the inherited __getstate__ returns slots only: "
                        f"pickle / copy.deepcopy drop {a} and the copy raises AttributeError on first use")
     chk.require(n_dict >= 1, "no __dict__ attribute found in the hierarchy (expected ConformerEnsemble._weights)")
+    # (e) the state can be put back on every class of the hierarchy: __setstate__ does setattr(self, k, v) for every
+    # slot name, so a subclass that re-declares one of them as a read-only property cannot be unpickled or deep-copied
+    # unless it replaces the protocol (__reduce__) by one that rebuilds it from its constructor arguments
+    restores_all = any(isinstance(lp, ast.For) and "state" in norm(lp.iter) and any(
+        isinstance(c, ast.Call) and call_name(c) == "setattr" for c in ast.walk(lp)) for lp in walk_no_nested(ss.node))
+    chk.require(restores_all, "Promolecule.__setstate__: the `for k, v in state.items(): setattr(self, k, v)` idiom vanished")
+    n_ro = 0
+    for ci in [base] + prog.subclasses(base):
+        red = prog.lookup(ci, "__reduce__") or prog.lookup(ci, "__reduce_ex__")
+        own_ss = prog.lookup(ci, "__setstate__")
+        chk.require(own_ss is not None and own_ss[0] == base, f"{ci.name} resolves __setstate__ to {own_ss[0].name if own_ss else None}: protocol not modelled")
+        ro = []
+        for k in slots[:-2]:
+            hit = prog.lookup(ci, k)
+            if hit is not None and hit[1].getter is not None and hit[1].setter is None:
+                ro.append((k, hit[0]))
+        key = f"{ci.module.relpath}:{ci.name}:state-restorable"
+        where = f"{ci.module.relpath}:{ci.node.lineno}"
+        if red is None:
+            chk.decide(not ro, "C06.R3", key, where, f"none of the {len(slots) - 2} state keys is a read-only property on {ci.name}",
+                       f"{ci.name} inherits Promolecule.__setstate__, which does setattr(self, k, v) for every slot name, but declares "
+                       f"{', '.join(sorted(k for k, _ in ro))} as propert{'ies' if len(ro) > 1 else 'y'} without a setter: "
+                       f"pickle.loads(pickle.dumps(x)) and copy.deepcopy(x) raise AttributeError for every {ci.name}")
+            continue
+        n_ro += 1
+        owner, mem = red
+        f = mem.func
+        chk.require(f is not None, f"{owner.name}.__reduce__ is not a plain method")
+        init = prog.lookup(ci, "__init__")
+        chk.require(init is not None and init[1].func is not None, f"{ci.name}.__init__ not found")
+        iargs = init[1].func.args
+        params = [a.arg for a in iargs.args[1:]]
+        required = len(params) - len(iargs.defaults)
+        stored = {}
+        for s_ in walk_no_nested(init[1].func):
+            if isinstance(s_, ast.Assign) and isinstance(s_.value, ast.Name) and s_.value.id in params:
+                for t in s_.targets:
+                    if norm(t).startswith("self."):
+                        stored.setdefault(s_.value.id, norm(t))
+        rets = [r for r in walk_no_nested(f) if isinstance(r, ast.Return)]
+        ok = bool(rets)
+        why = ""
+        for r in rets:
+            v = r.value
+            if not (isinstance(v, ast.Tuple) and len(v.elts) == 2 and isinstance(v.elts[1], ast.Tuple)):
+                ok, why = False, f"returns `{short(v, 50)}`, not (callable, args)"
+                break
+            ctor, args = v.elts
+            if norm(ctor) not in ("type(self)", "self.__class__", ci.name, owner.name):
+                ok, why = False, f"rebuilds through `{norm(ctor)}`, not the object's own class"
+                break
+            if not (required <= len(args.elts) <= len(params)):
+                ok, why = False, f"passes {len(args.elts)} argument(s) to a constructor taking {required}..{len(params)}"
+                break
+            for p_, a_ in zip(params, args.elts):
+                if stored.get(p_) != norm(a_):
+                    ok, why = False, f"passes `{norm(a_)}` for constructor parameter `{p_}`, which __init__ keeps in `{stored.get(p_)}`"
+                    break
+            if not ok:
+                break
+        chk.analysed(f"{owner.module.relpath}:{owner.name}.{f.name}", f"{init[0].module.relpath}:{init[0].name}.__init__")
+        chk.decide(ok, "C06.R3", key, where, f"{ci.name} is rebuilt from its constructor arguments ({', '.join(params)}); "
+                   f"read-only view properties: {', '.join(sorted(k for k, _ in ro)) or 'none'}",
+                   f"{owner.name}.__reduce__ {why}: the unpickled / deep-copied {ci.name} is not a copy of its source")
 
 
 def _setstate_inits_parent(chk, ss, cname):
